@@ -374,4 +374,135 @@ Proof.
     rewrite vadd_map_map. reflexivity.
 Qed.
 
+(* ---------------------------------------------------------------------------------------------- *)
+(* (d) the system assembled by the GLAM arithmetic *)
+Section System.
+Variable X : Type.
+Variable bas : X -> list (list K).      (* the basis matrix of a dimension *)
+Variable nsp : X -> nat.                (* its number of columns (splines) *)
+Variable nrw : X -> nat.                (* its number of rows (abscissae) *)
+Definition wf_basis (x : X) : Prop := rows_len (nsp x) (bas x) /\ length (bas x) = nrw x.
+Definition nspN (x : X) : N := N.of_nat (nsp x).
+Definition nrwN (x : X) : N := N.of_nat (nrw x).
+
+(* the product of the boxed bases at merged column indices factors *)
+Lemma rowprod_box : forall (xs : list X) (e j k : list N),
+  Forall wf_basis xs -> valid_idx (map nspN xs) j -> valid_idx (map nspN xs) k ->
+  rowprod (map (fun x => box (bas x) (bas x)) xs) e (merge (map nspN xs) j k)
+  = mul (rowprod (map bas xs) e j) (rowprod (map bas xs) e k).
+Proof.
+  induction xs as [|x xs IH]; intros e j k Hwf Hj Hk; cbn [map] in *;
+    inversion Hj as [|a r' j' rs' Ha Hj']; inversion Hk as [|b r'' k' rs'' Hb Hk']; subst; cbn [merge].
+  - destruct e; cbn [rowprod]; ring.
+  - destruct e as [|r e]; cbn [rowprod]; [ring|].
+    rewrite (IH e j' k' (Forall_inv_tail Hwf) Hj' Hk').
+    unfold nspN at 1. rewrite (entry_box (nsp x) (bas x) r a b (proj1 (Forall_inv Hwf)) Hb). ring.
+Qed.
+
+(* the entries of the Kronecker product of the basis rows *)
+Lemma design_row_cons (x : X) (xs : list X) (r : N) (e : list N) :
+  design_row (map bas (x :: xs)) (r :: e) = boxrow (nth (N.to_nat r) (bas x) []) (design_row (map bas xs) e).
+Proof. reflexivity. Qed.
+Lemma design_row_length : forall (xs : list X) (e : list N),
+  Forall wf_basis xs -> valid_idx (map nrwN xs) e ->
+  length (design_row (map bas xs) e) = fold_right Nat.mul 1%nat (map nsp xs).
+Proof.
+  induction xs as [|x xs IH]; intros e Hwf He; cbn [map] in He; inversion He as [|r r' e' rs' Hr He']; subst.
+  - reflexivity.
+  - rewrite design_row_cons, boxrow_length, (IH e' (Forall_inv_tail Hwf) He'). cbn [map fold_right]. f_equal.
+    destruct (Forall_inv Hwf) as [H1 H2]. unfold rows_len in H1. rewrite Forall_forall in H1. apply H1. apply nth_In.
+    unfold nrwN in Hr. lia.
+Qed.
+Lemma design_row_nth : forall (xs : list X) (e j : list N),
+  Forall wf_basis xs -> valid_idx (map nrwN xs) e -> valid_idx (map nspN xs) j ->
+  nth (N.to_nat (flat (map nspN xs) j)) (design_row (map bas xs) e) zero = rowprod (map bas xs) e j.
+Proof.
+  induction xs as [|x xs IH]; intros e j Hwf He Hj; cbn [map] in He, Hj;
+    inversion He as [|r r' e' rs' Hr He']; inversion Hj as [|a r'' j' rs'' Ha Hj']; subst.
+  - reflexivity.
+  - rewrite design_row_cons. cbn [map flat rowprod].
+    pose proof (design_row_length xs e' (Forall_inv_tail Hwf) He') as Hlen.
+    assert (Hp : prodN (map nspN xs) = N.of_nat (fold_right Nat.mul 1%nat (map nsp xs))).
+    { unfold nspN. rewrite <- (map_map nsp N.of_nat). apply prodN_of_nat. }
+    pose proof (flat_lt' _ _ Hj') as Hlt. rewrite Hp in Hlt.
+    rewrite Hp.
+    replace (N.to_nat (a * N.of_nat (fold_right Nat.mul 1%nat (map nsp xs)) + flat (map nspN xs) j'))
+      with (N.to_nat a * fold_right Nat.mul 1%nat (map nsp xs) + N.to_nat (flat (map nspN xs) j'))%nat by lia.
+    rewrite (nth_boxrow F (fold_right Nat.mul 1%nat (map nsp xs))) by (try exact Hlen; unfold nspN in *; lia).
+    rewrite (IH e' j' (Forall_inv_tail Hwf) He' Hj'). reflexivity.
+Qed.
+
+Variable xs : list X.
+Variable data : list (list N * K * K).           (* (index tuple, value, weight) *)
+Hypothesis Hwf : Forall wf_basis xs.
+Hypothesis Hdata : Forall (fun e => valid_idx (map nrwN xs) (fst (fst e))) data.
+
+Definition nsN : list N := map nspN xs.
+Definition ncoef : nat := fold_right Nat.mul 1%nat (map nsp xs).
+(* the objective's triples: (weight, Kronecker product of the basis rows at the entry's abscissae, value) *)
+Definition Etriples : list (K * list K * K) :=
+  map (fun e => (snd e, design_row (map bas xs) (fst (fst e)), snd (fst e))) data.
+Definition Farr_g : ndarr :=
+  fold_left (gstep X (fun x => box (bas x) (bas x)) (fun x => nsp x * nsp x)%nat) (combine (seq 0 (length xs)) xs)
+            (mkNd (map nrwN xs) (map (fun e => (fst (fst e), snd e)) data)).
+Definition Rarr_g : ndarr :=
+  fold_left (gstep X bas nsp) (combine (seq 0 (length xs)) xs)
+            (mkNd (map nrwN xs) (map (fun e => (fst (fst e), mul (snd e) (snd (fst e)))) data)).
+
+Lemma Etriples_wf : wf_rows ncoef Etriples.
+Proof.
+  unfold wf_rows, Etriples. apply Forall_map. rewrite Forall_forall in *. intros e He. cbn [fst snd].
+  apply design_row_length; [rewrite Forall_forall; exact Hwf | apply Hdata; exact He].
+Qed.
+Lemma prodN_nsN : prodN nsN = N.of_nat ncoef.
+Proof. unfold nsN, nspN, ncoef. rewrite <- (map_map nsp N.of_nat). apply prodN_of_nat. Qed.
+Lemma Nseq_of_nat (n : nat) : Nseq (N.of_nat n) = map N.of_nat (seq 0 n).
+Proof. unfold Nseq. rewrite Nat2N.id. reflexivity. Qed.
+
+Theorem glam_F_is_BtWB :
+  flatten_to_matrix (reshape_F Farr_g) (N.of_nat ncoef) (N.of_nat ncoef) = nmat ncoef Etriples.
+Proof.
+  rewrite (nmat_entries ncoef Etriples Etriples_wf).
+  assert (Hents : Forall (fun e : list N * K => valid_idx (map nrwN xs) (fst e)) (map (fun e : list N * K * K => (fst (fst e), snd e)) data)).
+  { apply Forall_map. exact Hdata. }
+  destruct (glam_fold_multilinear X (fun x => box (bas x) (bas x)) (fun x => nsp x * nsp x)%nat _ xs (map nrwN xs) (map_length _ _) Hents)
+    as [Hrs [Hva Hag]]. fold Farr_g in Hrs, Hva, Hag.
+  assert (Hsq : map (ncN X (fun x => (nsp x * nsp x)%nat)) xs = map sqr nsN).
+  { unfold nsN. rewrite map_map. apply map_ext. intro x. unfold ncN, sqr, nspN. lia. }
+  rewrite Hsq in Hrs, Hag.
+  unfold flatten_to_matrix. cbv zeta. rewrite Nseq_of_nat, <- prodN_nsN, !map_map.
+  apply map_ext_in. intros i Hi. rewrite map_map. apply map_ext_in. intros j Hj. apply in_seq in Hi. apply in_seq in Hj.
+  assert (Hi' : (N.of_nat i < prodN nsN)%N) by (rewrite prodN_nsN; lia).
+  assert (Hj' : (N.of_nat j < prodN nsN)%N) by (rewrite prodN_nsN; lia).
+  transitivity (aget Farr_g (merge nsN (unflat nsN (N.of_nat i)) (unflat nsN (N.of_nat j))));
+    [exact (reshape_flatten_entry Farr_g nsN (N.of_nat i) (N.of_nat j) Hrs Hva Hi' Hj')|].
+  pose proof (unflat_valid nsN _ Hi') as Vi. pose proof (unflat_valid nsN _ Hj') as Vj.
+  rewrite (Hag _ (merge_valid nsN _ _ Vi Vj)). unfold Etriples. rewrite !map_map. cbn [fst snd].
+  apply sumK_ext_in. intros e He. f_equal. rewrite Forall_forall in Hdata. specialize (Hdata e He).
+  unfold nsN in *. rewrite (rowprod_box xs _ _ _ Hwf Vi Vj).
+  rewrite <- (design_row_nth xs (fst (fst e)) _ Hwf Hdata Vi), <- (design_row_nth xs (fst (fst e)) _ Hwf Hdata Vj).
+  rewrite !flat_unflat by assumption. rewrite !Nat2N.id. reflexivity.
+Qed.
+
+Theorem glam_R_is_BtWz :
+  map (fun row => nth 0 row zero) (flatten_to_matrix Rarr_g (N.of_nat ncoef) 1%N) = nrhs ncoef Etriples.
+Proof.
+  rewrite (nrhs_entries ncoef Etriples Etriples_wf).
+  assert (Hents : Forall (fun e : list N * K => valid_idx (map nrwN xs) (fst e)) (map (fun e : list N * K * K => (fst (fst e), mul (snd e) (snd (fst e)))) data)).
+  { apply Forall_map. exact Hdata. }
+  destruct (glam_fold_multilinear X bas nsp _ xs (map nrwN xs) (map_length _ _) Hents) as [Hrs [Hva Hag]]. fold Rarr_g in Hrs, Hva, Hag.
+  change (map (ncN X nsp) xs) with nsN in Hrs, Hag.
+  unfold flatten_to_matrix. cbv zeta. change (Nseq 1) with [0%N]. cbn [map]. rewrite Nseq_of_nat, !map_map. cbn [nth].
+  apply map_ext_in. intros i Hi. apply in_seq in Hi.
+  assert (Hi' : (N.of_nat i < prodN nsN)%N) by (rewrite prodN_nsN; lia).
+  transitivity (aget Rarr_g (unflat nsN (N.of_nat i))); [exact (flatten_vector_entry Rarr_g nsN (N.of_nat i) Hrs Hva Hi')|].
+  pose proof (unflat_valid nsN _ Hi') as Vi.
+  rewrite (Hag _ Vi). unfold Etriples. rewrite !map_map. cbn [fst snd].
+  apply sumK_ext_in. intros e He. f_equal. rewrite Forall_forall in Hdata. specialize (Hdata e He).
+  unfold nsN in *. rewrite <- (design_row_nth xs (fst (fst e)) _ Hwf Hdata Vi).
+  rewrite flat_unflat by assumption. rewrite Nat2N.id. reflexivity.
+Qed.
+
+End System.
+
 End Kron.
